@@ -539,16 +539,32 @@ fn main() {
             if size > 0 {
                 entries.push((ins.clone(), V::s("HIT")));
             }
+            // fillers of every key kind, string keys in between (seeded change C15-5: the scan of
+            // small maps stopped at the first key that is not a string)
             let mut f = 0;
             while entries.len() < size {
-                let k = K::Str(format!("f{f}"));
+                let k = match f % 6 {
+                    0 => K::I64(100 + f as i64),
+                    1 => K::Str(format!("f{f}")),
+                    2 => K::Bool(true),
+                    3 => K::Str(format!("f{f}")),
+                    4 => K::U128(200 + f as u128),
+                    _ => K::Str(format!("f{f}")),
+                };
                 f += 1;
-                if !ref_key_eq(&k, ins) {
+                if !entries.iter().any(|(e, _)| ref_key_eq(e, &k)) {
                     entries.push((k, V::s("filler")));
                 }
             }
             let m = V::Map(entries.clone());
-            for probe in &ks {
+            // probes: every key of the alphabet, and every filler key of this map
+            let mut probes: Vec<K> = ks.clone();
+            for (k, _) in entries.iter().skip(1) {
+                if !probes.iter().any(|p| p == k) {
+                    probes.push(k.clone());
+                }
+            }
+            for probe in &probes {
                 let present = entries.iter().any(|(k, _)| ref_key_eq(k, probe));
                 let is_subject = size > 0 && ref_key_eq(ins, probe);
                 let ctx = vals::context(&[("m", &m), ("k", &probe.as_v())]);
